@@ -460,8 +460,10 @@ def _dense_variants(case):
         out.append(("sym_pert", l, "all" if i == len(pc) // 2 else "issym", "big", F))
     # the same cells at the small magnitudes: symmetry test only (averages of such data are not exact)
     for mag in PERT_MAGS[1:]:
-        for l in pc:
-            out.append(("sym_pert", l, "issym", mag, F))
+        for i, l in enumerate(pc):
+            # (middle cell: also symmetrised; the averages are rounded, so the result is asserted to be bitwise
+            # symmetric and to agree with the reference average within 1e-12)
+            out.append(("sym_pert", l, "symm_approx" if i == len(pc) // 2 else "issym", mag, F))
     # averages that are exact but NOT integers (multiples of 1/2), in floating and in integer storage
     if len(groups[0]) >= 2:
         out.append(("half", None, "all", "big", F))
@@ -497,7 +499,7 @@ def _dense_one(case, ctx):
     mag = case.get("mag", "big")
     A = dense_data(shape, groups, case["data"], case["pert"], case["vseed"], mag)
     if mag != "big":
-        assert case["ops"] == "issym", "harness: small perturbations are for the symmetry test only"
+        assert case["ops"] in ("issym", "symm_approx"), "harness: small perturbations: symmetry test / approximate average only"
         ctx.flag("pert_" + mag)
     g = _garg(groups, form)
     p = Probe(ctx, case)
@@ -524,6 +526,23 @@ def _dense_one(case, ctx):
         ctx.flag("integer_dtype")
     _check_issym(p, ctx, A, groups, g, want_sym, "tensor.issymmetric", dtype=dtype)
     if case["ops"] == "issym":
+        return
+    if case["ops"] == "symm_approx":
+        ref = rm.symmetrize(A, groups)      # rounded averages
+        for vname, ver in VERSIONS:
+            T = _mk(A, dtype)
+            ok, R = p.call("tensor.symmetrize", lambda: _sym_call(T, None if g is None else g.copy(), ver), variant=vname + ":approx")
+            if not ok:
+                continue
+            d, sym, det = _tensor_data(R, shape)
+            if d is None:
+                p.expect("tensor.symmetrize", False, sym, det, vname + ":approx")
+                continue
+            p.expect("tensor.symmetrize", rm.is_symmetric(d, groups), "not_symmetric",
+                     f"result of symmetrising a nearly symmetric tensor is not invariant under its groups: {_fl(d)}",
+                     vname + ":approx")
+            p.expect("tensor.symmetrize", bool(np.all(np.abs(d - ref) <= 1e-12 * (1.0 + np.abs(ref)))), "wrong_value",
+                     f"got(F)={_fl(d)} reference average(F)={_fl(ref)}", vname + ":approx")
         return
     ref = rm.symmetrize(A, groups)          # exact: the data are multiples of prod |g|!
     assert rm.is_symmetric(ref, groups)
